@@ -102,7 +102,14 @@ func (h *H) Run(c Case) {
 	if len(h.res.Samples) < 8 && h.res.Evaluations%h.sampleEv == 1 {
 		h.res.Samples = append(h.res.Samples, truncCase(c))
 	}
+	t0 := time.Now()
+	if os.Getenv("VERIF_TRACE") != "" {
+		fmt.Fprintf(os.Stderr, "case %d: op %s k=%s whole=%s\n", h.res.Evaluations, c.Op, c.A["k"], c.A["whole"])
+	}
 	fs := ev.run(h, c)
+	if d := time.Since(t0); d > 5*time.Second && os.Getenv("VERIF_SLOW") != "" {
+		fmt.Fprintf(os.Stderr, "slow case (%.1fs): op %s %v\n", d.Seconds(), c.Op, truncCase(c))
+	}
 	for _, f := range fs {
 		// at most 3 recorded cases per failure key, so that one frequent failure cannot crowd out another
 		if h.perKey[f.Key] < 3 && len(h.res.Failures) < h.maxFail {
